@@ -130,7 +130,7 @@ def gen_ops(rng, present, n):
     return ops, present
 
 
-TAMPERS = [None, None, "edit", "add", "delete", "rename", "rewrite", "excluded", "link_edit", "link_swap", "link_remove", "link_forge"]
+TAMPERS = [None, None, "edit", "add", "delete", "rename", "rewrite", "excluded", "link_edit", "link_swap", "link_remove", "link_forge", "eol"]
 
 
 def apply_file_tamper(rng, work, kind, opts=None):
@@ -169,6 +169,15 @@ def apply_file_tamper(rng, work, kind, opts=None):
             os.rename(p, other[0])        # the same name in the other Unicode normalisation form: another file name
         else:
             os.rename(p, p + ".moved")
+    elif kind == "eol":
+        # nothing but the line endings changes (LF -> CR LF, or a bare CR): other bytes, another file - line endings are
+        # only set aside when the recording was asked to normalise them, which these histories never ask for
+        data = open(p, "rb").read()
+        new = data.replace(b"\r\n", b"\n").replace(b"\n", rng.choice([b"\r\n", b"\r"]))
+        if new == data:
+            new = data + b"\r\n"
+        with open(p, "wb") as f:
+            f.write(new)
     elif kind == "rewrite":
         data = open(p, "rb").read()
         os.remove(p)
@@ -219,6 +228,15 @@ class Honest:
             # (not with custom exclude patterns: a directory link would make an excluded file reachable under a
             # second, not excluded, name, and the history would no longer be an honest one)
             os.symlink(sorted(present)[0].split("/")[0], os.path.join(self.work, "alias"))
+        if present and rng.random() < 0.3 and not opts["exclude"] and not opts["lstrip"] and not opts["paths"]:
+            # a directory link whose target's path is a string prefix of the path of the directory it lies in
+            # (lib64/shared -> ../lib): no cycle, and everything behind it belongs to the recording
+            d0 = sorted(present)[0].split("/")[0]
+            if os.path.isdir(os.path.join(self.work, d0)) and not os.path.exists(os.path.join(self.work, d0 + "64")):
+                os.makedirs(os.path.join(self.work, d0 + "64"))
+                with open(os.path.join(self.work, d0 + "64", "own.txt"), "w") as f_:
+                    f_.write("own\n")
+                os.symlink("../" + d0, os.path.join(self.work, d0 + "64", "shared"))
         cwd = os.getcwd()
         kw = {}
         if opts["exclude"]:
@@ -229,7 +247,7 @@ class Honest:
             # (relative, like the metadata directory below: the tools are called from the history's root)
             kw["base_path"] = rng.choice([self.work, "work", "work"])
         links_arg = rng.choice([self.links, "links"]) if opts["base"] else self.links
-        file_tampers = ("edit", "add", "delete", "rename", "rewrite", "excluded")
+        file_tampers = ("edit", "add", "delete", "rename", "rewrite", "excluded", "eol")
         try:
             # with a base path the tools are called from another directory; the command changes into the tree itself
             os.chdir(self.root if opts["base"] else self.work)
